@@ -24,9 +24,10 @@ def run(ctx):
                 "DetailedBalanceVac on extracted tables; real samplers replayed per state); random even cluster values, "
                 "integer KRA and TS-cluster values, random spectators; non-trivial = distinct (config, occupation, "
                 "transition) with a reported barrier")
-    cfgs = ["sc221j", "b2s221", "fccnd", "sc221v", "b2s221v", "tet2_211", "tet2_211v", "hcp221v"]
+    # hcp221 / hcp221v: two mobile sites per cell, jumps between DIFFERENT basis sites (with and without a vacancy)
+    cfgs = ["sc221j", "b2s221", "fccnd", "sc221v", "b2s221v", "tet2_211", "tet2_211v", "hcp221v", "hcp221"]
     if not quick:
-        cfgs += ["sc222j", "sc222v", "fcc222", "fcc222v", "hcp221", "b2s222", "b2s222v"]
+        cfgs += ["sc222j", "sc222v", "fcc222", "fcc222v", "b2s222", "b2s222v"]
     for rep in range(1 if quick else 2):
         for name in cfgs:
             db_check(ctx, name)
